@@ -1434,6 +1434,17 @@ fn run_handle(spec: &Spec, stub: &str) {
             Ok(c) => println!("term ok out={} err={} status={}", hexenc(&c.stdout), hexenc(&c.stderr), show_status(c.exit_status)),
             Err(e) => println!("term err {}", show_err(&e)),
         },
+        "communicate" => match e.communicate() {
+            Ok(mut c) => match c.read() {
+                Ok((o, e)) => println!(
+                    "term ok out={} err={}",
+                    o.map(|v| hexenc(&v)).unwrap_or("none".into()),
+                    e.map(|v| hexenc(&v)).unwrap_or("none".into())
+                ),
+                Err(e) => println!("term ok readerr={:?}", e.kind()),
+            },
+            Err(e) => println!("term err {}", show_err(&e)),
+        },
         "stream_stdout" => match e.stream_stdout() {
             Ok(r) => {
                 println!("term ok");
